@@ -3,11 +3,11 @@
    Each theorem relates the evaluation ALGORITHM of the model (cumulative sums, nonzero, grouping,
    coordinate mapping; tied to the code by correspondence on all 16 modelled classes) to the
    documented formula written directly.  Classes whose formula theorem is not proved here
-   (MaximizeCAI: see C07; HarmonizeRCA, UniquifyAllKmers, AvoidHairpins) are decided by
+   (MaximizeCAI: see C07; HarmonizeRCA; the localized form of UniquifyAllKmers) are decided by
    correspondence + independent references. *)
 From Coq Require Import ZArith QArith Qminmax Qabs Bool List Ascii String Lia.
 From DC Require Import Model.Base Model.Loc Model.Bio Model.Pattern Model.MSpace Model.Specs
-                       Generated.GenTables Proofs.SpecsDefs Proofs.SpecsEval Proofs.SpecsLocalA Proofs.SpecsLocalB Proofs.SpecsLocalC Proofs.Meaning2.
+                       Generated.GenTables Proofs.SpecsDefs Proofs.SpecsEval Proofs.SpecsLocalA Proofs.SpecsLocalB Proofs.SpecsLocalC Proofs.Meaning2 Proofs.Meaning3.
 Import ListNotations.
 Open Scope Z_scope.
 
@@ -167,3 +167,29 @@ Theorem C10_terminal_gc_meaning : forall mini maxi ends s,
      exists ls, locs e = Some ls /\ In w ls).
 Proof. exact terminal_gc_meaning. Qed.
 Print Assumptions C10_terminal_gc_meaning.
+
+(* ---- third series (Proofs/Meaning3.v) ---- *)
+
+(* UniquifyAllKmers evaluated globally: minus the number of window starts of the reference span whose
+   k-mer lies inside the location and occurs at least twice among the k-mers of the reference span *)
+Theorem C10_uniquify_global_meaning : forall k l ref irc s, 1 <= k ->
+  let e := eval_uniquify_global k l ref irc s in
+  let starts := zrange (lstart ref) (lend ref - k + 1) in
+  let repeated i := 2 <=? count_dna (kmer_at s irc k i) (map (kmer_at s irc k) starts) in
+  let inside i := (lstart l <=? i) && (i + k <=? lend l) in
+  score e = zq (- zlen (filter (fun i => repeated i && inside i) starts)) /\
+  (passes e = true <-> forall i, In i starts -> inside i = true -> repeated i = false) /\
+  locs e = Some (map (fun i => mkLoc i (i + k) 0) (filter (fun i => repeated i && inside i) starts)).
+Proof. exact uniquify_global_meaning. Qed.
+Print Assumptions C10_uniquify_global_meaning.
+
+(* AvoidHairpins: minus the number of stem starts i of the segment that have a partner - an offset j with
+   i + stem <= j and j + stem <= min(n, i + window) whose word is the reverse complement of the stem word
+   ([hairpin_at], a closed form of the negative-index slices of the code; any location, either strand) *)
+Theorem C10_hairpins_meaning : forall stem window l s, 1 <= stem -> stem <= window ->
+  let e := eval_hairpins stem window l s in
+  let sub := extract l s in
+  let starts := filter (hairpin_at stem window sub) (zrange 0 (zlen sub - stem)) in
+  score e = zq (- zlen starts) /\ (passes e = true <-> starts = []).
+Proof. exact hairpins_meaning_gen. Qed.
+Print Assumptions C10_hairpins_meaning.
